@@ -39,6 +39,8 @@ def wild_tree(rng, depth):
     return [wild_tree(rng, depth - 1) for _ in range(rng.below(4))]
 
 
+YAML_TAGS = ["a: !!binary aGk=\n", "a: !custom x\n", "a: !!set {x, y}\n", "a: !!omap [x: 1]\n", "? [1, 2]\n: v\n", "a: !!int \"12\"\n", "a: !!str 12\n",
+             "a: !!float 1\n", "a: !!null x\n", "a: !!bool yes\n", "!!map {a: 1}\n", "--- !tagged\na: 1\n"]
 YAML_SELF = ["a: &a [*a]\n", "a: &a {b: *a}\n", "a: &a {<<: *a, c: 1}\n", "a: &a\n  b: &b\n    - *a\n    - *b\n", "x: 1\n---\na: &a [[*a]]\n"]
 
 CYCLES = [
@@ -65,6 +67,9 @@ CYCLES = [
     {"a": '$"{b}{b}"', "b": '$"{a}"'},
     {"a": '$"{a}-{b}"', "b": "x"},
     {"a": '$"{nope}{b}"', "b": "x"},
+    {"x": {"l": [{"y": {"$merge": "x"}}]}},
+    {"x": {"l": [[{"$merge": "x"}]], "k": 1}},
+    {"$repeat": 2, "$repeat:x": 1},
 ]
 
 
@@ -109,14 +114,15 @@ LIMIT = "ulimit -v 2500000; exec \"$@\""
 SLOWEST = [0.0]
 
 
-def run_tool(ctx, tool, args, cwd):
+def run_tool(ctx, tool, args, cwd, inp=None):
     cmd = ["/bin/sh", "-c", LIMIT, "sh", os.path.join(ctx.bindir, tool)] + args
     import subprocess
     import time
-    env = {"PATH": "/usr/bin:/bin", "HOME": cwd, "TMPDIR": cwd}
+    env = core.cover_env({"PATH": "/usr/bin:/bin", "HOME": cwd, "TMPDIR": cwd})
     try:
         t0 = time.time()
-        p = subprocess.run(cmd, cwd=cwd, env=env, stdout=subprocess.PIPE, stderr=subprocess.PIPE, timeout=20)
+        p = subprocess.run(cmd, cwd=cwd, env=env, stdout=subprocess.PIPE, stderr=subprocess.PIPE, timeout=20, input=inp,
+                           stdin=(None if inp is not None else subprocess.DEVNULL))
         SLOWEST[0] = max(SLOWEST[0], time.time() - t0)
         return p.returncode, p.stdout, p.stderr.decode("utf-8", "replace")
     except subprocess.TimeoutExpired as e:
@@ -174,7 +180,7 @@ def run(ctx):
         jobs.append(("graph", lay, rng.fork("link")))
     # structurally generated YAML with anchors, aliases and merge keys, a third of it with an alias to an enclosing anchor
     # (a: &a [*a] - yaml.v3's node tree is then cyclic), plus the three smallest such documents
-    for text in YAML_SELF:
+    for text in YAML_SELF + YAML_TAGS:
         jobs.append(("yamltext", text, rng.fork("ys")))
     for i in range(n // 10):
         r = rng.fork("y%d" % i)
@@ -210,7 +216,8 @@ def run(ctx):
                     ("bkli", [[k for k in files][0], top])]
         elif kind == "yamltext":
             open(os.path.join(d, "x.yaml"), "w").write(payload)
-            runs = [("bkl", ["-f", "json", "x.yaml"]), ("bklr", ["x.yaml"]), ("bkld", ["x.yaml", "x.yaml"]), ("bkli", ["x.yaml", "x.yaml"])]
+            runs = [("bkl", ["-f", "json", "x.yaml"]), ("bklr", ["x.yaml"]), ("bkld", ["x.yaml", "x.yaml"]), ("bkli", ["x.yaml", "x.yaml"]),
+                    ("bkl", ["-v", "-f", "yaml", "x.yaml"]), ("bkl", ["-o", "nosuchdir/out.json", "x.yaml"])]
         elif kind == "bytes":
             ext = r.pick(["json", "toml"])
             open(os.path.join(d, "x." + ext), "wb").write(payload)
@@ -220,8 +227,13 @@ def run(ctx):
             inp = payload["opts"]["inputs"]
             runs = [("bkl", ["-f", "json"] + inp), ("bklr", inp[:1]), ("bkld", [inp[0], inp[-1]]), ("bkli", [inp[0], inp[-1]])]
         first = None
-        for tool, args in runs:
-            rc, out, err = run_tool(ctx, tool, args, d)
+        if kind == "yamltext":
+            runs.append(("bkl", ["-f", "json", "--", "-.yaml"], payload.encode()))        # the same text as a layer read from stdin
+        elif kind == "bytes":
+            runs.append(("bkl", ["-f", "json", "--", "-." + ext], bytes(payload)))
+        for run in runs:
+            tool, args = run[0], run[1]
+            rc, out, err = run_tool(ctx, tool, args, d, inp=(run[2] if len(run) > 2 else None))
             if first is None:
                 first = (rc, out, err)
             why = discipline(tool, rc, out, err)
